@@ -40,6 +40,7 @@ PROPS["C19"] = dict(pkg="chain", level="exploration", stages=[
 
 PROPS["C14"] = dict(pkg="chain", level="exploration", stages=[
     direct("diamond", "TestC14Diamond"),
+    direct("heavy-reject", "TestC14HeavyReject"),
     rapid("rapid", "TestC14", dict(shards=16, checks=700), dict(shards=16, checks=8000, timeout=7000)),
 ])
 
